@@ -458,6 +458,9 @@ func (fn *FullNode) Decode(buf []byte) error {
 		}
 		if idx > 0 {
 			key := make([]byte, 32)
+			if idx > hex.EncodedLen(len(key)) {
+				return ErrInvalidEncoding
+			}
 			_, err := hex.Decode(key, buf[:idx])
 			if err != nil {
 				return err
